@@ -642,13 +642,19 @@ func (s *Store) Exec(op OpSpec) (class string, coqOp string) {
 
 // Account is a seeded address (spend and view keys known to the harness).
 func Account(seedHex string) *common.Address {
+	if a, ok := accountCache[seedHex]; ok {
+		return a
+	}
 	seed, err := hex.DecodeString(seedHex)
 	if err != nil || len(seed) != 64 {
 		panic("bad seed")
 	}
 	a := common.NewAddressFromSeed(seed)
+	accountCache[seedHex] = &a
 	return &a
 }
+
+var accountCache = map[string]*common.Address{}
 
 // ExecValidated is the node's own admission path for one transaction: sign
 // every input with the accounts of op.Tx.Sign, common Validate against the real
